@@ -108,7 +108,7 @@ func C16() *check.Property {
 		Patterns: CorePatterns,
 		Scope:    []string{ro},
 		Rules: []check.Rule{ruleRelease(), ruleTeardownAllRun(), ruleCtxWatch(), ruleCtxDoneTerminates(), ruleQueueFIFO(), ruleCtxPairing(),
-			ruleTerminalPropagation(), ruleDeadEmission(), ruleNoEmitUnderTeardownLock(), ruleStateLevel(), ruleWatchdogRearm(), ruleTimerDequeueCoupled(), ruleConsumeFlag(), ruleBuildTimeState(), ruleCtxProvenance(), ruleTimeShiftViaTimer(), ruleNoHotInCold(), ruleTimerResetDrained()},
+			ruleTerminalPropagation(), ruleDeadEmission(), ruleNoEmitUnderTeardownLock(), ruleStateLevel(), ruleWatchdogRearm(), ruleTimerDequeueCoupled(), ruleConsumeFlag(), ruleBuildTimeState(), ruleCtxProvenance(), ruleTimeShiftViaTimer(), ruleNoHotInCold(), ruleTimerResetDrained(), ruleNoPostDeliveryMutation()},
 		Explanation: "Narrow structural claim. Every clause of C16 that compares wall-clock instants or counts events per window (never early, at most one per window/tick, Timeout only after a full quiet period) is NOT decided: no sound static argument bounds those. " +
 			"Decided are the clauses that are visible in the code's shape: (fall silent) every timer, ticker and looping goroutine of every operator is stopped / signalled by its teardown, on every path of the teardown and even when an earlier release panics (RELEASE, TEARDOWN-ALL-RUN); " +
 			"the context-aware sources watch the subscriber context in every blocking select and the cancellation case ends the output (CTX-WATCH, CTX-DONE-TERMINATES); (never reorder) the queues of Delay and of the combining/buffering operators are filled at the tail and read at the head " +
